@@ -220,6 +220,7 @@ def run(ctx, rep):
     rng = ctx.rng('gen')
     n1, n2 = (450, 450) if ctx.quick else (4000, 4000)
     progs = PG.gen_programs(rng, n1, tainted=False) + PG.gen_programs(rng, n2, tainted=True)
+    progs += PG.gen_programs(ctx.rng('unres2'), 150 if ctx.quick else 1500, tainted=False, second_unresolvable=True)
     rep.rule = ('programs of the forwarding grammar, half of them with a taint statement (rebind, augmented assignment, '
                 'method/item mutation, del, handing over, nonlocal capture, aliasing read) placed before or after the call; '
                 'every program is really executed on every call shape its reported signature accepts '
